@@ -27,7 +27,8 @@
 //! Configurations: widths {1,2,5,10,20,40,80,100,200} + 3 random in 1..=200, indents {0,1,2,4,8},
 //! allow_linebreaks = true, omit_decl_sep = false (what `scc fmt` uses), plus the default of
 //! `print_to_string(None)` (width 100, indent 4, allow_linebreaks = false) and one omit_decl_sep.
-//! Members of the enumerated family get K of these per program (default 4 when n < 500, else all).
+//! Members of the enumerated family get K of these per program (default 4 when n < 200, else 16); generated
+//! programs get 12 when n < 200, else all; files always get all.
 //!
 //! In-place mode: `(case k (inplace <name> <width> <indent>) (<file content after> <t2>))` - the body
 //! of fmt.rs's `exec` replayed on a temporary copy (Driver::parsed, File::create on the same path,
@@ -221,7 +222,7 @@ fn cli_inplace(scc: &str, text: &str, c: &Cfg, dir: &std::path::Path, tag: usize
 pub fn cmd_fmt(seed: u64, n: usize, args: &[String], out: &mut dyn std::io::Write) {
     let mut rng = Rng::new(seed);
     let mut dirs: Vec<String> = Vec::new();
-    let mut mini_cfgs: usize = if n < 500 { 4 } else { 0 };
+    let mut mini_cfgs: usize = if n < 200 { 4 } else { 16 };
     let (mut mini, mut cli) = (true, true);
     let mut i = 0;
     while i < args.len() {
@@ -268,7 +269,7 @@ pub fn cmd_fmt(seed: u64, n: usize, args: &[String], out: &mut dyn std::io::Writ
         let mut gcfg = gen_fun::FunGenCfg::mix(&mut grng);
         if j % 3 == 0 { gcfg.neg_zero = true; }
         let text = match std::panic::catch_unwind(AssertUnwindSafe(|| gen_fun::gen_program(&mut grng, &gcfg).text)) { Ok(t) => t, Err(_) => continue };
-        let cfgs = configs(&mut rng, if n < 500 { 12 } else { 0 });
+        let cfgs = configs(&mut rng, if n < 200 { 12 } else { 0 });
         emit_program(&mut k, &format!("gen:{seed}:{j}"), &text, &cfgs, out);
     }
 
